@@ -15,24 +15,9 @@ def fpBuiltin : List Nat := [
   0x047d42047c91a3ccd43827d008a4442c  /- value/display.rs::fmt -/]
 
 def fpContext : List Nat := [
-  0xe2990efed42fa25eaa4a51fb37e48b15  /- context/mod.rs::default#0 -/,
-  0xe2990efed42fa25eaa4a51fb37e48b15  /- context/mod.rs::default#1 -/]
+]
 
 def fpEval : List Nat := [
-  0x7c39b0e7bee4514c8d602e1c90d47c07  /- value/mod.rs::is_string -/,
-  0x80173e86a1a6339cad9f9f0801416ab8  /- value/mod.rs::is_int -/,
-  0xf2dbfc474e616b9df2404b40b58982c7  /- value/mod.rs::is_float -/,
-  0x1e915a39599200806856392c71c42d25  /- value/mod.rs::is_number -/,
-  0x09c1d7347ef767ee74d419bb3b0d0d65  /- value/mod.rs::is_boolean -/,
-  0x43e79009da0b876532aff0e302b5b509  /- value/mod.rs::is_tuple -/,
-  0x228612cc3b547cc595f37e5f8485b52b  /- value/mod.rs::is_empty -/,
-  0x0faf4a569ab731bdfd863a00e832005d  /- value/mod.rs::from#3 -/,
-  0x1cf140d1c429c14893c81bdcb75862ee  /- value/mod.rs::from#4 -/,
-  0x6d4c0f2ee8146a525f6530f0b9c057c5  /- value/mod.rs::from#5 -/,
-  0x44dca42bdc5484b1a3001391a55ff9fe  /- value/mod.rs::try_from#0 -/,
-  0xd046b91a4c216adbbde55407bf039867  /- value/mod.rs::try_from#1 -/,
-  0x5f24f5d6631860e2c4a536825e9fae46  /- value/mod.rs::try_from#2 -/,
-  0xfca3a095fe2813478196b39913586472  /- value/mod.rs::try_from#3 -/,
   0xf572890976667b7dda75fe372ddbdb5b  /- function/mod.rs::call -/,
   0x2354ae232c6541939f0472061fcfa50b  /- function/mod.rs::new -/]
 
@@ -42,16 +27,6 @@ def fpInterface : List Nat := [
 def fpIter : List Nat := [
   0xe50e35b4df26e1be29400cfcaab04c0a  /- tree/iter.rs::iter -/,
   0x75e882bf1d574cfce1eeb3364e505107  /- tree/iter.rs::iter_operators_mut -/,
-  0x6cf92f13a8d524bcac9420aec987fe6b  /- tree/mod.rs::iter_identifiers -/,
-  0x5464d625d56e5e3557d9be232e6d1cc9  /- tree/mod.rs::iter_identifiers_mut -/,
-  0xac3055637105780a1fa4ddd1b44c3db1  /- tree/mod.rs::iter_variable_identifiers -/,
-  0x64521d116dca3b4c33bedd56b0cf94ff  /- tree/mod.rs::iter_variable_identifiers_mut -/,
-  0x502630264cd63926af3fcd4af51a1dc6  /- tree/mod.rs::iter_read_variable_identifiers -/,
-  0x210415c46d40a3ca3cfeb7f9d3279dbc  /- tree/mod.rs::iter_read_variable_identifiers_mut -/,
-  0x081543e913522693e1d40aad017e4ca8  /- tree/mod.rs::iter_write_variable_identifiers -/,
-  0xea4b966945f388d9278c05ba9f8eeba5  /- tree/mod.rs::iter_write_variable_identifiers_mut -/,
-  0x3d5120c4c4d82f8cec469a3c1879edd1  /- tree/mod.rs::iter_function_identifiers -/,
-  0xca26026819dc982773f57a75ec135e7d  /- tree/mod.rs::iter_function_identifiers_mut -/,
   0xea7df6e0f8ca109b49f549a517ab4362  /- tree/mod.rs::children_mut -/,
   0x1791e2cef5cac11c3081ecdea3996c54  /- tree/mod.rs::operator_mut -/]
 
